@@ -198,13 +198,17 @@ def handle (args : List String) : String :=
         match id.splitOn "/" with
         | [t, o, s] =>
           match ofHex t, parseOracle o, parseOptHex s with
-          | some t, some o, some s => some (t, o, s)
+          | some t, some o, some s => some (t, o, s, 0)
           | _, _, _ => none
+        | [t, o, s, a] =>
+          match ofHex t, parseOracle o, parseOptHex s, a.toNat? with
+          | some t, some o, some s, some a => some (t, o, s, a)
+          | _, _, _, _ => none
         | _ => none)
       match parsed, hash13 suite with
       | some l, some h =>
         let os := l.flatMap (fun p => p.2.1.toList)
-        let secrets := l.map (fun p => p.2.2)
+        let secrets := l.map (fun p => p.2.2.1)
         -- binder abstraction: the binder the harness computes for identity i verifies iff the client-side
         -- secret on the line equals the resumption secret inside the ticket
         let binderOk := fun (i : Nat) (st : SessionState13) =>
@@ -214,7 +218,8 @@ def handle (args : List String) : String :=
         let x : Ctx13 := { ticketsDisabled := dis == "1", now := now, negHash := h, pskModes := modes, nBinders := nb, clientAuth := auth }
         if !(l.all (fun p => oracleCovers os keys p.1)) then "oracle-miss"
         else
-          match checkForResumption13 hmacSha256 (ctrOf os) hash13 binderOk x keys (l.map (·.1)) with
+          match checkForResumption13Id hmacSha256 (ctrOf os) hash13 binderOk x keys
+                  (l.map (fun p => { label := p.1, obfuscatedTicketAge := p.2.2.2 })) with
           | .noPSK => "none"
           | .errBinders => "err 0"
           | .errBinder _ => "err 0"
